@@ -650,7 +650,7 @@ func (s *stack) exec(strong bool, o *jop) string {
 			hterm = "(HBad sym)"
 		default:
 			hterm = fmt.Sprintf("(HTok sym %s %s)", s.plainTerm(tokstr), vh.Bool(s.jwt[tokstr]))
-			for i, t := range s.gAuthTok { // shape of the known finding, decided from the history alone
+			for i, t := range s.gAuthTok { // an inactive token of an active user is presented (counted in the evidence)
 				if t != "" && t == tokstr && !s.jwt[tokstr] && s.gAuthLive[i] && !s.gAuthActive[i] && s.userKnown(s.gAuthUser[i]) && s.gUserActive[s.gAuthUser[i]] {
 					s.shapes[sigInactiveToken] = true
 				}
@@ -768,8 +768,9 @@ func runHist(c *jcase, gen *rand.Rand, nops int, flavour int) *result {
 		}
 	}
 	res.nontr = ok200 || pwok
+	// no known-finding signature any more: the inactive-token shape (s.shapes) is only counted
 	if s.shapes[sigInactiveToken] {
-		res.sig = sigInactiveToken
+		res.counts["inactive_token_probed"] = "true"
 	}
 	res.term = fmt.Sprintf("(CHist %s %s %s %s %s)", vh.Bool(c.Strong), vh.Bool(c.UH), variantTerm(c.HV), vh.List(terms), vh.List(obs))
 	return res
@@ -780,7 +781,7 @@ type generator struct {
 	r       *rand.Rand
 	s       *stack
 	strong  bool
-	flavour int // 0 normal, 1 may probe inactive tokens of active users (the known finding's shape)
+	flavour int // 0 normal, 1 deliberately probes inactive tokens of active users
 	npw10   int // cost-10 bcrypt operations so far
 	ntok    int
 	nsess   int
@@ -852,7 +853,7 @@ func (g *generator) sessKey() *sspec {
 }
 
 // probeAllowed: in a normal history the generator does not present the token of an
-// inactive authorization whose user is active (that shape is the known finding).
+// inactive authorization whose user is active (that shape was a finding, repaired in /repo; flavour 1 histories exercise it).
 func (g *generator) probeOK(o *jop) bool {
 	if g.flavour == 1 || !o.HasHdr {
 		return true
@@ -898,7 +899,7 @@ func (g *generator) next() []*jop {
 	if len(s.users) == 0 || (len(s.users) < 3 && g.pick(10) == 0) {
 		return []*jop{{K: "create_user"}}
 	}
-	if g.flavour == 1 && g.pick(6) == 0 { // the known-finding shape: deactivate a token, present it
+	if g.flavour == 1 && g.pick(6) == 0 { // deactivate a token, present it (must be refused), maybe reactivate
 		for i, t := range s.gAuthTok {
 			if t != "" && s.gAuthLive[i] && g.pick(2) == 0 {
 				return []*jop{{K: "set_auth_active", ID: i, Active: false}, {K: "probe", HasHdr: true, Scheme: "Token ", Tok: &sspec{T: "plain", S: t}},
@@ -1044,7 +1045,7 @@ func corpus() []*jcase {
 			{K: "create_sess", U: 0, Key: pl("sess-2"), Off: shortMs}, {K: "wait", Off: waitMs}, {K: "probe", Cookie: pl("sess-2")}, {K: "probe", Cookie: pl("sess-0")},
 			{K: "set_user_active", U: 0, Active: false}, {K: "probe", Cookie: pl("sess-0")}, {K: "set_user_active", U: 0, Active: true},
 			{K: "expire_sess", Key: pl("sess-0")}, {K: "probe", Cookie: pl("sess-0")}, {K: "renew_sess", Key: pl("sess-0"), Off: farMs}}},
-		// KNOWN FINDING shape: an inactive token of an active user
+		// an inactive token of an active user is refused with 401 (passed the middleware before the /repo fix)
 		{Kind: "hist", UH: true, HV: 256, Ops: []*jop{{K: "create_user"}, {K: "create_auth", U: 0, Tok: pl("tok-0"), Active: true, NPerm: 3},
 			tok("Token ", pl("tok-0")), {K: "set_auth_active", ID: 0, Active: false}, tok("Token ", pl("tok-0")),
 			{K: "set_auth_active", ID: 0, Active: true}, tok("Token ", pl("tok-0"))}},
@@ -1105,7 +1106,9 @@ func add(w *vh.W, res *result) {
 	}
 	w.Add(res.term, res.c, res.nontr, res.sig)
 	w.Count("kind", "hist")
-	w.Count("sig", res.sig)
+	for k, v := range res.counts {
+		w.Count(k, v)
+	}
 	w.Count("strong", fmt.Sprint(res.c.Strong))
 	w.Count("config", fmt.Sprintf("hashed=%v/%d", res.c.UH, res.c.HV))
 	for _, o := range res.c.Ops {
